@@ -254,11 +254,11 @@ def mkOpt (s : S) : OptSt :=
     .cg { core := mkCore s.pol s.mx (tol 0.000001) 0, fn := s.fn0, ext := Cg.fresh }
   | "bfgs", _ =>
     .bfgs { core := mkCore s.pol s.mx (tol 0.000001) 0, fn := s.fn0, ext := Bfgs.fresh }
-  | "meta", ty :: _ =>
+  | "meta", ty :: r =>
     -- first half of the function's parameters: coordinate-wise Brent; second half: BFGS (harness/C10.cpp)
     let h := (s.n + 1) / 2
     let ext : Meta Float :=
-      { n := 2, full := ty == "full", g1 := List.range h, g2 := (List.range (s.n - h)).map (· + h), p1 := [], p2 := [],
+      { n := (r.head?.bind nat?).getD 2, full := ty == "full", g1 := List.range h, g2 := (List.range (s.n - h)).map (· + h), p1 := [], p2 := [],
         c1 := mkCore .keep 1000000 0.000001 0, e1 := Simple.fresh,
         c2 := mkCore .keep 1000000 0.000001 0, e2 := Bfgs.fresh,
         stepCount := 0, initialValue := -1, precisionStep := -1 }
